@@ -361,7 +361,8 @@ def _replay_mle(n, method, with_kwargs=False):
         if den == 0:
             return True, "degenerate (all counts equal cmin)"
         want = 1 + len(kept) / den
-        return abs(got - want) <= 1e-9 * max(1, abs(want)), f"powerlaw_mle_alpha({cs}, cmin={cmin}, {method}) = {got!r}, expected {want!r}"
+        ok = got == want or (math.isfinite(got) and math.isfinite(want) and abs(got - want) <= 1e-9 * max(1, abs(want)))
+        return ok, f"powerlaw_mle_alpha({cs}, cmin={cmin}, {method}) = {got!r}, expected {want!r}"
     return replay
 
 
